@@ -203,8 +203,8 @@ theorem distinct_drain (q : List (List Byte)) (s : St) (log : List Call) (h : Di
     unfold drain
     exact ih _ _ (distinct_process s m h)
 
-theorem distinct_syncLoop (q : List (List Byte)) (s : St) (n : Nat) (log : List Call) (h : Distinct s) :
-    Distinct (syncLoop q s n log).1 := by
+theorem distinct_syncLoop (fails : Nat → Bool) (q : List (List Byte)) (s : St) (n : Nat) (log : List Call) (h : Distinct s) :
+    Distinct (syncLoop fails q s n log).1 := by
   induction q generalizing s n log with
   | nil => cases n <;> simpa [syncLoop, Distinct] using h
   | cons m ms ih =>
@@ -221,19 +221,23 @@ theorem distinct_syncLoop (q : List (List Byte)) (s : St) (n : Nat) (log : List 
           cases hf : findActive (s.arr.getD []) rid with
           | none => exact ih _ _ _ h
           | some t =>
-            refine ih _ _ _ ?_
-            simp only [Distinct]
-            cases ha : s.arr with
-            | none => simp [activeIds, active]
-            | some es =>
-              simp only [Option.map_some, Option.getD_some]
-              exact nodup_deactivate es rid (by simpa [Distinct, ha] using h)
+            have hd : Distinct { s with arr := s.arr.map (deactivate · rid) } := by
+              simp only [Distinct]
+              cases ha : s.arr with
+              | none => simp [activeIds, active]
+              | some es =>
+                simp only [Option.map_some, Option.getD_some]
+                exact nodup_deactivate es rid (by simpa [Distinct, ha] using h)
+            simp only []
+            split
+            · simpa [Distinct] using hd
+            · exact ih _ _ _ hd
         | err e => simpa [Distinct] using h
         | null => simpa [Distinct] using h
         | oob => simpa [Distinct] using h
         | fault => simpa [Distinct] using h
 
-theorem distinct_sync (s : St) (h : Distinct s) : Distinct (sync s).1 := by
+theorem distinct_sync (fails : Nat → Bool) (s : St) (h : Distinct s) : Distinct (sync fails s).1 := by
   unfold sync
   cases ha : s.arr with
   | none => simpa [Distinct, ha] using h
@@ -241,7 +245,7 @@ theorem distinct_sync (s : St) (h : Distinct s) : Distinct (sync s).1 := by
     simp only []
     split
     · simpa [Distinct, ha] using h
-    · have hl := distinct_syncLoop s.inq s (active es).length [] h
+    · have hl := distinct_syncLoop fails s.inq s (active es).length [] h
       split
       · simp only [Distinct, Option.getD_some]
         rw [activeIds_active]
@@ -261,7 +265,7 @@ theorem distinct_await (s : St) (tag : Nat) (s' : St) (i : Nat) (h : Distinct s)
     have := reserve_fresh s.arr s.idlen tag a j (by intro es he; simpa [Distinct, he] using h) hr
     simpa [Distinct] using this.2.2.2.1
 
-theorem distinct_rstep (s : St) (op : ROp) (h : Distinct s) : Distinct (rstep s op).1 := by
+theorem distinct_rstep (fails : Nat → Bool) (s : St) (op : ROp) (h : Distinct s) : Distinct (rstep fails s op).1 := by
   cases op with
   | await tag =>
     simp only [rstep]
@@ -270,11 +274,11 @@ theorem distinct_rstep (s : St) (op : ROp) (h : Distinct s) : Distinct (rstep s 
     | some pr => obtain ⟨s', i⟩ := pr; exact distinct_await s tag s' i h ha
   | send d => simpa [rstep, send, Distinct] using h
   | answer fs => exact distinct_drain _ s [] h
-  | sync fs => exact distinct_sync _ (by simpa [Distinct] using h)
+  | sync fs => exact distinct_sync fails _ (by simpa [Distinct] using h)
 
-theorem distinct_rrun (s : St) (ops : List ROp) (h : Distinct s) : Distinct (rrun s ops).1 := by
+theorem distinct_rrun (fails : Nat → Bool) (s : St) (ops : List ROp) (h : Distinct s) : Distinct (rrun fails s ops).1 := by
   induction ops generalizing s with
   | nil => exact h
-  | cons op ops ih => simp only [rrun]; exact ih _ (distinct_rstep s op h)
+  | cons op ops ih => simp only [rrun]; exact ih _ (distinct_rstep fails s op h)
 
 end Mpt.Requester
